@@ -11,6 +11,13 @@ struct Act {
     int hold;
     int keep;
     uint32_t id;
+    bool during_unwind = false;  // W/C: the whole write cycle runs in a destructor while an unrelated exception propagates
+};
+struct HarnessUnwind {};
+template<class F>
+struct RunInDtor {
+    F f;
+    ~RunInDtor() { f(); }
 };
 struct WriteRec {
     uint32_t id;
@@ -41,7 +48,7 @@ int main(int argc, char** argv)
             bool writer = (t == 0) || rng.chance(50);
             for (int i = 0; i < n; i++) {
                 if (writer && rng.chance(60) && id <= 10) {
-                    sc.push_back(Act{rng.chance(75) ? 'W' : 'C', static_cast<int>(rng.below(2)), static_cast<int>(rng.below(4)), 0, id++});
+                    sc.push_back(Act{rng.chance(75) ? 'W' : 'C', static_cast<int>(rng.below(2)), static_cast<int>(rng.below(4)), 0, id++, rng.chance(12)});
                 } else {
                     sc.push_back(Act{'S', static_cast<int>(rng.below(4)), static_cast<int>(rng.below(4)), static_cast<int>(rng.below(3)), 0});
                 }
@@ -52,7 +59,7 @@ int main(int argc, char** argv)
         for (size_t t = 0; t < scripts.size(); t++) {
             if (t) pj += ",";
             pj += vrf::jarr(scripts[t].begin(), scripts[t].end(), [](const Act& a) {
-                return std::string("{\"k\":\"") + a.kind + "\",\"form\":" + std::to_string(a.form) + ",\"hold\":" + std::to_string(a.hold) + ",\"keep\":" + std::to_string(a.keep) + ",\"id\":" + std::to_string(a.id) + "}";
+                return std::string("{\"k\":\"") + a.kind + "\",\"form\":" + std::to_string(a.form) + ",\"hold\":" + std::to_string(a.hold) + ",\"keep\":" + std::to_string(a.keep) + ",\"id\":" + std::to_string(a.id) + (a.during_unwind ? ",\"during_unwind\":1" : "") + "}";
             });
         }
         pj += "]}";
@@ -100,40 +107,51 @@ int main(int argc, char** argv)
                         WriteRec w;
                         w.id = a.id;
                         w.committed = (a.kind == 'W');
+                        auto cycle = [&] {
                         w.call = vrf::now();
-                        {
-                            COW::handle h = cow->lock();
-                            if (!h) vrf::violation("oracle:write_handle_null", "{}");
                             {
-                                Win win(*h, true);
-                                vrf::tl_vt_label = static_cast<int>(a.id);
-                                h->check("private copy");
-                                w.initial = h->log();
-                                for (int i = 0; i < a.hold; i++) vrf::user_point();
-                                h->append_raw(a.id);
-                            }
-                            auto release = [&](COW::handle& hh) {
-                                w.rel_call = vrf::now();
-                                if (a.kind == 'W') {
-                                    hh->frozen = true;  // from now on the object is (about to be) published: nobody may write to it
-                                    hh.reset();
-                                } else {
-                                    hh.cancel();
-                                    if (hh) vrf::violation("oracle:handle_not_null_after_cancel", "{}");
-                                }
-                            };
-                            if (a.form == 1) {
-                                COW::handle h2(std::move(h));
-                                if (h) vrf::violation("oracle:moved_from_write_handle_not_null", "{}");
+                                COW::handle h = cow->lock();
+                                if (!h) vrf::violation("oracle:write_handle_null", "{}");
                                 {
-                                    Win win(*h2, true);
-                                    h2->check("moved handle");
+                                    Win win(*h, true);
+                                    vrf::tl_vt_label = static_cast<int>(a.id);
+                                    h->check("private copy");
+                                    w.initial = h->log();
+                                    for (int i = 0; i < a.hold; i++) vrf::user_point();
+                                    h->append_raw(a.id);
                                 }
-                                release(h2);
-                            } else {
-                                release(h);
+                                auto release = [&](COW::handle& hh) {
+                                    w.rel_call = vrf::now();
+                                    if (a.kind == 'W') {
+                                        hh->frozen = true;  // from now on the object is (about to be) published: nobody may write to it
+                                        hh.reset();
+                                    } else {
+                                        hh.cancel();
+                                        if (hh) vrf::violation("oracle:handle_not_null_after_cancel", "{}");
+                                    }
+                                };
+                                if (a.form == 1) {
+                                    COW::handle h2(std::move(h));
+                                    if (h) vrf::violation("oracle:moved_from_write_handle_not_null", "{}");
+                                    {
+                                        Win win(*h2, true);
+                                        h2->check("moved handle");
+                                    }
+                                    release(h2);
+                                } else {
+                                    release(h);
+                                }
                             }
-                        }
+                        };
+                        if (a.during_unwind) {
+                            // releasing a write handle is a commit also when it happens in clean-up code during stack unwinding
+                            try {
+                                RunInDtor<decltype(cycle)&> guard{cycle};
+                                throw HarnessUnwind{};
+                            }
+                            catch (const HarnessUnwind&) {
+                            }
+                        } else cycle();
                         w.ret = vrf::now();
                         writes[t].push_back(std::move(w));
                     }
